@@ -518,6 +518,7 @@ impl Crate {
                 let text = fx.function(f, &lname, tr);
                 entry.insert("sites".into(), Json::A(fx.sites.iter().map(|s| s.json()).collect()));
                 entry.insert("calls".into(), Json::A(fx.calls.iter().map(|s| Json::S(s.clone())).collect()));
+                entry.insert("auto_helpers".into(), Json::A(fx.auto_helpers.iter().map(|s| Json::S(s.clone())).collect()));
                 let mut text = text?;
                 // trait instances
                 let inst = match *tr {
@@ -609,6 +610,7 @@ impl Crate {
                 let text = fx.parser_fn(f, &lname);
                 entry.insert("sites".into(), Json::A(fx.sites.iter().map(|s| s.json()).collect()));
                 entry.insert("calls".into(), Json::A(fx.calls.iter().map(|s| Json::S(s.clone())).collect()));
+                entry.insert("auto_helpers".into(), Json::A(fx.auto_helpers.iter().map(|s| Json::S(s.clone())).collect()));
                 text
             }
             CItem::Closure { func, idx, lean, captures, params, ret } => {
@@ -632,7 +634,48 @@ impl Crate {
                 let text = fx.closure_item(c, lean, captures, params, ret, func);
                 entry.insert("sites".into(), Json::A(fx.sites.iter().map(|s| s.json()).collect()));
                 entry.insert("calls".into(), Json::A(fx.calls.iter().map(|s| Json::S(s.clone())).collect()));
+                entry.insert("auto_helpers".into(), Json::A(fx.auto_helpers.iter().map(|s| Json::S(s.clone())).collect()));
                 text
+            }
+        }
+    }
+
+    /// a function of the crate that translated code calls but that is not configured (a helper someone extracted):
+    /// translated like any other and marked `@[simp]`, so that proofs by simplification see through it
+    pub fn translate_helper(&self, qual: &str) -> (String, BTreeMap<String, Json>) {
+        let mut entry = BTreeMap::new();
+        entry.insert("kind".into(), Json::S("auto_helper".into()));
+        entry.insert("rust".into(), Json::S(qual.to_string()));
+        let res = (|| -> R<String> {
+            let fs: Vec<&FnInfo> = self.fns.iter().filter(|f| f.qual == qual && f.tr.is_empty()).collect();
+            if fs.len() != 1 {
+                return Err(format!("expected exactly one function `{}`, found {}", qual, fs.len()));
+            }
+            let f = fs[0];
+            let lname = match &f.ty {
+                Some(t) => format!("{}.rs_{}", lean_type_name(t).ok_or("unmapped type")?, f.sig.ident),
+                None => format!("Semver.Gen.auto_{}", f.sig.ident),
+            };
+            entry.insert("lean".into(), Json::S(lname.clone()));
+            entry.insert("file".into(), Json::S(f.file.clone()));
+            entry.insert("line".into(), Json::N(f.line as i64));
+            let mut fx = Fx::new(self, f.ty.clone());
+            let text = fx.function(f, &lname, "");
+            entry.insert("sites".into(), Json::A(fx.sites.iter().map(|s| s.json()).collect()));
+            entry.insert("calls".into(), Json::A(fx.calls.iter().map(|s| Json::S(s.clone())).collect()));
+            entry.insert("auto_helpers".into(), Json::A(fx.auto_helpers.iter().map(|s| Json::S(s.clone())).collect()));
+            let text = text?;
+            Ok(text.replacen("\ndef ", "\n@[simp] def ", 1))
+        })();
+        match res {
+            Ok(t) => {
+                entry.insert("status".into(), Json::S("translated".into()));
+                (t, entry)
+            }
+            Err(e) => {
+                entry.insert("status".into(), Json::S("untranslatable".into()));
+                entry.insert("reason".into(), Json::S(e.clone()));
+                (format!("-- UNTRANSLATABLE helper {} : {}\n", qual, e.replace('\n', " ")), entry)
             }
         }
     }
